@@ -23,6 +23,10 @@ def run(pid, tier, seed, replay):
     except subprocess.TimeoutExpired as e:
         log("TOOL-ERROR %s: timeout %s" % (pid, e))
         return 2
+    except Exception as e:      # a defect of the machinery is never a verdict
+        import traceback
+        log("TOOL-ERROR %s: %s: %s\n%s" % (pid, type(e).__name__, e, traceback.format_exc()[-1500:]))
+        return 2
 
 
 def h(x):
